@@ -2,9 +2,9 @@ package c11
 
 import (
 	"context"
-	"os"
 	"errors"
 	"fmt"
+	"os"
 	"runtime"
 	"strings"
 	"sync"
@@ -75,22 +75,23 @@ type mproxy struct {
 }
 
 type mprom struct {
-	id       int
-	p        *capnp.Promise
-	caller   *capsim.Caller
-	state    int // 0 unresolved 1 resolved 2 joined
-	next     *mprom
-	res      *mresult
-	rejected bool
-	open     int // held calls inside its caller
-	proxies  map[int]*mproxy
-	refs     int  // clientsRefs
-	released bool // ReleaseClients already called on this promise
-	gone     bool // the proxies of this (root) promise were released
-	pendingKids int    // promises whose Join onto this one is waiting for their own calls: Join keeps this promise locked meanwhile
-	joinParent  *mprom // set while this promise's Join is pending
-	pendingOp chan struct{} // done channel of the pending Fulfill/Reject/Join
-	pending  bool // Fulfill/Reject/Join was issued while calls are held in the pipeline caller: it completes when they finish
+	id          int
+	p           *capnp.Promise
+	caller      *capsim.Caller
+	state       int // 0 unresolved 1 resolved 2 joined
+	next        *mprom
+	res         *mresult
+	rejected    bool
+	open        int // held calls inside its caller
+	proxies     map[int]*mproxy
+	refs        int           // clientsRefs
+	released    bool          // ReleaseClients already called on this promise
+	gone        bool          // the proxies of this (root) promise were released
+	pendingKids int           // promises whose Join onto this one is waiting for their own calls: Join keeps this promise locked meanwhile
+	joinParent  *mprom        // set while this promise's Join is pending
+	waitsFor    *mprom        // set while this promise's Join waits for that promise's pending Fulfill/Reject to complete
+	pendingOp   chan struct{} // done channel of the pending Fulfill/Reject/Join
+	pending     bool          // Fulfill/Reject/Join was issued while calls are held in the pipeline caller: it completes when they finish
 }
 
 func root(p *mprom) *mprom {
@@ -123,17 +124,17 @@ type mclient struct {
 }
 
 type mcall struct {
-	id       uint64
-	held     bool
-	open     bool
-	caller   *capsim.Caller // expected pipeline caller (nil: expected at a capability or error)
-	prom     *mprom
-	path     int
-	hook     *capsim.Hook // expected capability
-	wantErr  string       // expected error substring when neither caller nor hook
-	done     chan struct{}
-	err      error
-	recv     *capsim.NullReturner
+	id        uint64
+	held      bool
+	open      bool
+	caller    *capsim.Caller // expected pipeline caller (nil: expected at a capability or error)
+	prom      *mprom
+	path      int
+	hook      *capsim.Hook // expected capability
+	wantErr   string       // expected error substring when neither caller nor hook
+	done      chan struct{}
+	err       error
+	recv      *capsim.NullReturner
 	cancelled bool // made with a context that is already done: it may be refused with the context's error instead
 }
 
@@ -152,21 +153,24 @@ type pending struct {
 }
 
 type machine struct {
-	log     *capsim.Log
-	proms   []*mprom
-	clients []*mclient
-	calls   []*mcall
-	waiters []*waiter
-	results []*mresult
-	pend    []pending
-	probe    bool // run the excluded history on purpose
-	excluded int
-	late    []*mcall // calls issued while a resolution was pending: they complete after it
-	nhooks  int
+	log                    *capsim.Log
+	proms                  []*mprom
+	clients                []*mclient
+	calls                  []*mcall
+	waiters                []*waiter
+	results                []*mresult
+	pend                   []pending
+	probe                  bool // run the excluded history on purpose
+	excluded               int
+	late                   []*mcall // calls issued while a resolution was pending: they complete after it
+	nhooks                 int
 	pipelinedBeforeResolve bool
 	repeatedClient         bool
 	joins                  int
 	cancelledCalls         int
+	joinsOntoPending       int
+	joinsOntoPendingJoin   int
+	cancelledLate          int
 }
 
 var yieldTarget atomic.Value
@@ -445,6 +449,9 @@ func (m *machine) checkLate(c *mcall) error {
 		if err == nil || strings.Contains(es, "capsim:") {
 			return pbt.Fail("error-call-result", "call %d was delivered nowhere but did not fail (%v)", c.id, err)
 		}
+		if c.cancelled && strings.Contains(es, "context canceled") {
+			return nil // given up while it waited
+		}
 		// delivered nowhere: only legitimate if the answer was rejected, or the transform does not lead to a capability
 		if c.path <= tC && !strings.Contains(es, "rejected-") {
 			return pbt.Fail("late-call-lost", "call %d (path %v leads to a capability in every fulfilled result) issued while a Fulfill/Reject/Join was pending was delivered nowhere and failed with %q", c.id, paths[c.path], es)
@@ -506,7 +513,14 @@ func (m *machine) exec(op Op) error {
 			cancel()
 			ctx = cctx
 		}
-		return start(c, func() {
+		var giveUp context.CancelFunc
+		if late && op.C%7 == 5 {
+			// the caller gives up while the call waits for the pending Fulfill/Reject/Join
+			c.cancelled = true
+			m.cancelledLate++
+			ctx, giveUp = context.WithCancel(ctx)
+		}
+		err := start(c, func() {
 			if op.K == "pipeSend" {
 				a, rel := ans.PipelineSend(ctx, xform(path), capnp.Send{Method: meth})
 				_, c.err = a.Struct()
@@ -516,6 +530,10 @@ func (m *machine) exec(op Op) error {
 				ans.PipelineRecv(ctx, xform(path), capnp.Recv{Method: meth, ReleaseArgs: func() {}, Returner: c.recv})
 			}
 		})
+		if giveUp != nil {
+			giveUp()
+		}
+		return err
 	case "client":
 		p, ok := pick(m.proms, op.A)
 		if !ok {
@@ -650,13 +668,47 @@ func (m *machine) exec(op Op) error {
 		}
 		blocking := p.open > 0
 		r := root(q)
+		var waitFor *mprom
 		if pendingChain(q) {
-			return nil // Join waits for the other promise to leave its pending state
+			// Join waits for the other promise to leave its pending state.  Modelled for the plain case: the chain's
+			// root sits in a Fulfill/Reject that waits for its held calls, nothing else on the chain is pending, and
+			// p itself has no held calls: p's Join returns once that resolution is through, with the same outcome.
+			plain := r.pending && r.state == 1 && r.pendingKids == 0 && r.waitsFor == nil && p.open == 0 && p.pendingKids == 0
+			for x := q; x != r; x = x.next {
+				if x.pending || x.pendingKids > 0 {
+					plain = false
+				}
+			}
+			// Second modelled case: q's own Join (onto r, still unresolved) is waiting for q's held calls; p's Join
+			// waits for that to finish and then joins the same root.
+			pendingJoin := !plain && q.pending && q.state == 2 && q.joinParent == r && q.next == r && r.state == 0 && !r.pending && r.waitsFor == nil && q.waitsFor == nil && p.open == 0 && p.pendingKids == 0
+			if pendingJoin {
+				waitFor = q
+				m.joinsOntoPendingJoin++
+			}
+			if !plain && !pendingJoin {
+				return nil
+			}
+		}
+		if pendingChain(q) && waitFor == nil {
+			m.joins++
+			m.joinsOntoPending++
+			m.resolveModel(p, r.rejected, r)
+			p.pending, p.waitsFor = true, r
+			ans := q.p.Answer()
+			err := m.runOp("Promise.Join", true, func() { p.p.Join(ans) })
+			if err == nil {
+				p.pendingOp = m.pend[len(m.pend)-1].done
+			}
+			return err
 		}
 		p.pending = blocking
 		if blocking && r.state != 1 {
 			p.joinParent = r
 			r.pendingKids++
+		}
+		if waitFor != nil {
+			p.pending, p.waitsFor, blocking = true, waitFor, true
 		}
 		m.joins++
 		if r.state == 1 {
@@ -769,6 +821,22 @@ func (m *machine) finish(c *mcall) error {
 			if jp := c.prom.joinParent; jp != nil {
 				jp.pendingKids--
 				c.prom.joinParent = nil
+			}
+			// Joins that were waiting for this resolution complete with it
+			for changed := true; changed; {
+				changed = false
+				for _, y := range m.proms {
+					if y.waitsFor == nil || y.waitsFor.pending {
+						continue
+					}
+					select {
+					case <-y.pendingOp:
+					case <-time.After(deadline):
+						return pbt.Fail("hang/join-onto-pending", "promise %d was joined to promise %d while that one was waiting in its Fulfill/Reject; the resolution is through but the Join did not return\n%s", y.id, y.waitsFor.id, pbt.Stacks("capnp/v3."))
+					}
+					y.pending, y.pendingOp, y.waitsFor = false, nil, nil
+					changed = true
+				}
 			}
 		}
 	}
@@ -900,6 +968,9 @@ func run(c Case) (pbt.Result, error) {
 	res.Class("joins:%d", imin(m.joins, 3))
 	res.Count("excluded_known_finding_ops", int64(m.excluded))
 	res.Count("calls_with_done_context", int64(m.cancelledCalls))
+	res.Count("joins_onto_pending_resolution", int64(m.joinsOntoPending))
+	res.Count("joins_onto_pending_join", int64(m.joinsOntoPendingJoin))
+	res.Count("calls_cancelled_while_waiting", int64(m.cancelledLate))
 	res.Nontrivial = m.pipelinedBeforeResolve || m.repeatedClient
 	return res, nil
 }
@@ -915,8 +986,8 @@ var opKinds = []string{"new", "pipeSend", "pipeSend", "pipeRecv", "client", "cli
 
 var _ = pbt.Register(pbt.Spec[Case]{
 	Property: "C11", Name: "sequential-model",
-	Rule:     "op scripts (up to 30 ops; 1 in 6 is built around a chain of three promises joined tail first or head first after pipelined clients were handed out, resolved, the three owners releasing in a drawn order with calls in between) over a pool of promises with instrumented pipeline callers: PipelineSend/PipelineRecv with transforms {[0],[1,0],[257],[2],[1],[1,5]} (calls may be held open inside their destination; 1 in 7 of the others is made with a context that is already cancelled and may then be refused with that error instead of being delivered), Future.Client() for the same and for different paths (repeatedly), calls through the returned clients before and after resolution, Fulfill with a 258-pointer result carrying three counted capabilities, Reject, Join (chains, joins of resolved answers), ReleaseClients, Struct() waiters; operations predicted to wait for held calls run on their own goroutine. Model: per promise state/joined-to/outcome, per call its destination. Oracle: every call is delivered exactly once to the predicted destination - the root promise's pipeline caller with the same transform if made before resolution, otherwise the capability found at the transform in the result, or it fails with the rejection / null / not-a-capability error; asking for the same pipelined client twice yields the same client and every later op still returns; Done() closes and every waiter returns with the outcome; clients handed out before resolution keep the resolved capability alive after the result message is reset and are released by ReleaseClients (every capability shut down exactly once). Non-trivial: a pipelined call or a repeated Client() preceded resolution.",
-	Quick:    5000, Thorough: 50000,
+	Rule:  "op scripts (up to 30 ops; 1 in 6 is built around a chain of three promises joined tail first or head first after pipelined clients were handed out, resolved, the three owners releasing in a drawn order with calls in between; Join is also made onto promises whose own Fulfill/Reject or Join is still waiting for held calls) over a pool of promises with instrumented pipeline callers: PipelineSend/PipelineRecv with transforms {[0],[1,0],[257],[2],[1],[1,5]} (calls may be held open inside their destination; 1 in 7 of the others is made with a context that is already cancelled and may then be refused with that error instead of being delivered; calls that have to wait for a pending Fulfill/Reject/Join may be given up while they wait), Future.Client() for the same and for different paths (repeatedly), calls through the returned clients before and after resolution, Fulfill with a 258-pointer result carrying three counted capabilities, Reject, Join (chains, joins of resolved answers), ReleaseClients, Struct() waiters; operations predicted to wait for held calls run on their own goroutine. Model: per promise state/joined-to/outcome, per call its destination. Oracle: every call is delivered exactly once to the predicted destination - the root promise's pipeline caller with the same transform if made before resolution, otherwise the capability found at the transform in the result, or it fails with the rejection / null / not-a-capability error; asking for the same pipelined client twice yields the same client and every later op still returns; Done() closes and every waiter returns with the outcome; clients handed out before resolution keep the resolved capability alive after the result message is reset and are released by ReleaseClients (every capability shut down exactly once). Non-trivial: a pipelined call or a repeated Client() preceded resolution.",
+	Quick: 5000, Thorough: 50000,
 	Gen: func(t *rapid.T) Case {
 		ops := []Op{{K: "new"}}
 		random := func() Op {
@@ -1010,23 +1081,23 @@ func runProbe(c probeCase) (pbt.Result, error) {
 
 var _ = pbt.Register(pbt.Spec[probeCase]{
 	Property: "C11", Name: "pending-resolution-probe",
-	Rule:     "fixed history: two pipelined clients X1, X2 of one answer; one call through each held in the pipeline caller; Fulfill (fulfils one client, waiting for its held call, the other is still a promise); a further call through each client during the pending resolution; the held calls return. Oracle: Fulfill and all calls return. Regression history of a repaired defect (calls through a pipelined client during the pending-resolution window deadlocked the resolution).",
-	Quick:    1, Thorough: 1,
-	Gen:      func(t *rapid.T) probeCase { return probeCase{Path: rapid.IntRange(0, 2).Draw(t, "path")} },
-	Run:      runProbe,
-	Seeds:    []probeCase{{Path: 0}},
+	Rule:  "fixed history: two pipelined clients X1, X2 of one answer; one call through each held in the pipeline caller; Fulfill (fulfils one client, waiting for its held call, the other is still a promise); a further call through each client during the pending resolution; the held calls return. Oracle: Fulfill and all calls return. Regression history of a repaired defect (calls through a pipelined client during the pending-resolution window deadlocked the resolution).",
+	Quick: 1, Thorough: 1,
+	Gen:   func(t *rapid.T) probeCase { return probeCase{Path: rapid.IntRange(0, 2).Draw(t, "path")} },
+	Run:   runProbe,
+	Seeds: []probeCase{{Path: 0}},
 })
 
 // ---------------------------------------------------------------------------
 // concurrent variant
 
 type concCase struct {
-	Callers  int   `json:"callers"`  // goroutines issuing pipelined calls / Client() / Struct()
-	PerG     int   `json:"per_goroutine"`
-	Outcome  int   `json:"outcome"`  // 0 fulfill, 1 reject, 2 join an already fulfilled answer, 3 join an unresolved answer that is fulfilled later
-	Paths    []int `json:"paths"`
-	Perturb  []int `json:"perturb"`
-	ResolveAfter int `json:"resolve_after"` // yields before the resolver acts
+	Callers      int   `json:"callers"` // goroutines issuing pipelined calls / Client() / Struct()
+	PerG         int   `json:"per_goroutine"`
+	Outcome      int   `json:"outcome"` // 0 fulfill, 1 reject, 2 join an already fulfilled answer, 3 join an unresolved answer that is fulfilled later
+	Paths        []int `json:"paths"`
+	Perturb      []int `json:"perturb"`
+	ResolveAfter int   `json:"resolve_after"` // yields before the resolver acts
 }
 
 func runConc(c concCase) (pbt.Result, error) {
@@ -1182,14 +1253,14 @@ func runConc(c concCase) (pbt.Result, error) {
 
 var _ = pbt.Register(pbt.Spec[concCase]{
 	Property: "C11", Name: "concurrent",
-	Rule:     "2-5 goroutines issue PipelineSend calls, repeated Future.Client() requests and Struct() waiters on one answer while a resolver goroutine Fulfills / Rejects / Joins it (join of a resolved answer, or of an unresolved one fulfilled later), with Gosched injected at the library's yield points; race detector on. Invariants: every call delivered exactly once - to a pipeline caller, or to the capability at its transform in the result - or fails only when the answer was rejected / the transform has no capability; nothing hangs; Done() closes; after ReleaseClients and message reset every capability is shut down exactly once. Non-trivial: >=2 caller goroutines.",
-	Quick:    1500, Thorough: 15000,
+	Rule:  "2-5 goroutines issue PipelineSend calls, repeated Future.Client() requests and Struct() waiters on one answer while a resolver goroutine Fulfills / Rejects / Joins it (join of a resolved answer, or of an unresolved one fulfilled later), with Gosched injected at the library's yield points; race detector on. Invariants: every call delivered exactly once - to a pipeline caller, or to the capability at its transform in the result - or fails only when the answer was rejected / the transform has no capability; nothing hangs; Done() closes; after ReleaseClients and message reset every capability is shut down exactly once. Non-trivial: >=2 caller goroutines.",
+	Quick: 1500, Thorough: 15000,
 	Gen: func(t *rapid.T) concCase {
 		return concCase{
 			Callers: rapid.IntRange(2, 5).Draw(t, "callers"), PerG: rapid.IntRange(1, 6).Draw(t, "perg"),
-			Outcome: rapid.IntRange(0, 3).Draw(t, "outcome"),
-			Paths:   rapid.SliceOfN(rapid.IntRange(0, 5), 1, 6).Draw(t, "paths"),
-			Perturb: rapid.SliceOfN(rapid.IntRange(0, 3), 0, 6).Draw(t, "perturb"),
+			Outcome:      rapid.IntRange(0, 3).Draw(t, "outcome"),
+			Paths:        rapid.SliceOfN(rapid.IntRange(0, 5), 1, 6).Draw(t, "paths"),
+			Perturb:      rapid.SliceOfN(rapid.IntRange(0, 3), 0, 6).Draw(t, "perturb"),
 			ResolveAfter: rapid.IntRange(0, 30).Draw(t, "after"),
 		}
 	},
